@@ -291,7 +291,10 @@ Theorem C20_patch_reproduces_json_docs :
               f' A = Some cr /\
               f' (FsModel.bak A) = (if keep then Some ca else None) /\
               (forall q : FsModel.path, q <> A -> q <> FsModel.bak A -> q <> P -> f' q = f q)).
-Proof. exact patch_reproduces_json. Qed.
+Proof.
+  intros X parse dump pickle unpickle hatom udiff ops c conv ro ao H1 H2 H3 H4 H5 H6 Hpk Hjs.
+  exact (patch_reproduces_json X parse dump pickle unpickle hatom udiff ops c conv ro ao H1 H2 H3 H4 H5 H6 Hjs Hpk).
+Qed.
 Print Assumptions C20_patch_reproduces_json_docs.
 
 (** the reduced guards, in decidable form, imply the guards of the C01 theorem *)
@@ -324,3 +327,108 @@ Theorem C20_json_alias_refuted :
   DeltaGuard.veqb ja_t1 ja_t2 = false /\ Value.py_eqv ja_t1 ja_t2 = true.
 Proof. exact json_alias_refuted. Qed.
 Print Assumptions C20_json_alias_refuted.
+
+(** ------------------------------------------------------------------------
+    The same with the patch file carried by the pickle codec of the C14 block
+    (Pickle/DeltaCodec.v): what `deep diff --create-patch` writes is
+    [pickle_delta d = enc_prog (pv_of_delta d)], what `deep patch` loads is
+    [unpickle_delta w prog = reload w false prog] (restricted-unpickler VM in the process
+    [w], then the payload read as a delta; bidirectional = False).  The abstract pickle
+    premise is discharged by Pickle/DeltaCodecProofs.reload_canonical_dump.  What remains:
+    C01's oracle conditions, [conv_json_ok], the world conditions [calls_ok w] /
+    [types_ok w payload] (the process has the allow-listed globals), the JSON text round
+    trip, and two DECIDABLE conditions on the delta of the pair:
+      [delta_okb d]          every path of the delta is normalised and prints / parses back
+                             (C09's [path_ok]); for JSON documents the keys are strings and
+                             what can fail is exactly K5 / K6: a key with both quote characters
+                             or ending in U+1D1C0 (document-level guard [keys_path_okb];
+                             witnesses below = findings C20-K5-QUOTES / C20-K6-ESC)
+      [wfp (pv_of_delta d)]  the payload is a well-formed dict (distinct paths per category).
+    That [keys_path_okb a && keys_path_okb b] implies both for the delta of (a, b) is
+    OBSERVED on every generated pair by the correspondence check (evaluated in Coq with the
+    recorded oracles), not proved: it needs two facts about the diff model that the C01/C04
+    blocks do not provide (the paths of dictionary_item_added entries and of the opcode list
+    consist of document keys; entry paths are distinct per category). *)
+From DD Require Import Cli.JsonPickle.
+
+Theorem C20_patch_reproduces_json_docs_pickled :
+  forall (parse : list Vm.op -> option Value.value)
+         (dump : Value.value -> option (list Vm.op))
+         (w : Vm.world) (hatom : Value.atom -> PyStr.pystr)
+         (udiff : PyStr.pystr -> PyStr.pystr -> PyStr.pystr)
+         (ops : Value.path -> list Value.value -> list Value.value -> list Tree.opcode)
+         (c : DiffModel.cfg)
+         (conv : Value.ty -> Value.value -> option Value.value)
+         (ro : list (Value.path * Value.value) -> list (Value.path * Value.value))
+         (ao : list (Value.path * option Value.value) -> list (Value.path * option Value.value)),
+    (forall a b : Value.atom, hatom a = hatom b -> a = b) ->
+    (forall (ty0 : Value.ty) (v v' : Value.value), conv ty0 v = Some v' -> Value.type_of v' = ty0) ->
+    JsonDocs.conv_json_ok conv ->
+    (forall (p : Value.path) (xs ys : list Value.value),
+        List.forallb DiffModel.is_atom xs = true ->
+        List.forallb DiffModel.is_atom ys = true ->
+        DeltaGuard.valid_ops xs ys (ops p xs ys)) ->
+    DeltaRun.ro_ok ro ->
+    DeltaRun.ao_ok ao ->
+    CodecProofs.calls_ok w ->
+    (forall (d : Value.value) (cc : list Vm.op), dump d = Some cc -> parse cc = Some d) ->
+    forall (pos : FsModel.dumps_pos) (keep : bool) (A B P : FsModel.path) (f : FsModel.fs Vm.op)
+           (ca : FsModel.content Vm.op) (a b : Value.value) (pd : FsModel.content Vm.op),
+      f A = Some ca ->
+      parse ca = Some a ->
+      FsModel.load parse f B = Some b ->
+      P <> A ->
+      P <> FsModel.bak A ->
+      JsonDocs.is_json a = true ->
+      JsonDocs.is_json b = true ->
+      Value.wf a = true ->
+      Value.wf b = true ->
+      DeltaGuard.alias_free (DeltaGuard.atoms_of a ++ DeltaGuard.atoms_of b) ->
+      DiffModel.ignore_private c = false \/ DeltaGuard.nopriv a = true /\ DeltaGuard.nopriv b = true ->
+      let d := JsonDocs.mk_delta_json hatom udiff ops c conv a b in
+      delta_okb d = true ->
+      Codec.wfp (DeltaCodec.pv_of_delta d) = true ->
+      CodecProofs.types_ok w (DeltaCodec.pv_of_delta d) ->
+      FsModel.diff_cmd parse pickle_delta (JsonDocs.mk_delta_json hatom udiff ops c conv) A B f = Some pd ->
+      exists b' : Value.value,
+        DeltaModel.apply conv ro ao d a = (b', 0) /\
+        DeltaGuard.veqb b' b = true /\
+        (forall cr : list Vm.op,
+            dump b' = Some cr ->
+            exists f' : FsModel.fs Vm.op,
+              FsModel.patch_cmd parse dump (unpickle_delta w) (JsonDocs.apply_delta_json conv ro ao)
+                                pos keep A P FsModel.no_fault (FsModel.upd P (Some pd) f) = (f', FsModel.Done) /\
+              FsModel.load parse f' A = Some b' /\
+              f' A = Some cr /\
+              f' (FsModel.bak A) = (if keep then Some ca else None) /\
+              (forall q : FsModel.path, q <> A -> q <> FsModel.bak A -> q <> P -> f' q = f q)).
+Proof. exact patch_reproduces_json_pickled. Qed.
+Print Assumptions C20_patch_reproduces_json_docs_pickled.
+
+(** the decidable payload condition implies C14's [delta_ok] *)
+Theorem C20_delta_okb_sound : forall d : DeltaModel.delta, delta_okb d = true -> DeltaCodecProofs.delta_ok d.
+Proof. exact delta_okb_sound. Qed.
+Print Assumptions C20_delta_okb_sound.
+
+(** non-vacuity: the delta of the pair of C20_json_guards_satisfiable meets both payload
+    conditions and comes back from the codec unchanged *)
+Example C20_pickled_guards_satisfiable :
+  keys_path_okb jx_t1 = true /\ keys_path_okb jx_t2 = true /\
+  delta_okb jx_delta = true /\ Codec.wfp (DeltaCodec.pv_of_delta jx_delta) = true /\
+  DeltaCodec.delta_of_pv false (DeltaCodec.pv_of_delta jx_delta) = Some jx_delta /\
+  (List.length (DeltaModel.d_val jx_delta) + List.length (DeltaModel.d_type jx_delta) +
+   List.length (DeltaModel.d_dadd jx_delta) >= 3)%nat.
+Proof. exact pickled_guards_satisfiable. Qed.
+Print Assumptions C20_pickled_guards_satisfiable.
+
+(** K5: {q'": 1} -> {q'": 2}.  Inside every other guard; the delta applied directly yields
+    B, but its path does not survive printing and parsing: the reloaded delta leaves A as it
+    was (finding C20-K5-QUOTES, replayed on the real CLI at every run) *)
+Theorem C20_keys_quotes_refuted : key_refuted k5_key.
+Proof. exact keys_quotes_refuted. Qed.
+Print Assumptions C20_keys_quotes_refuted.
+
+(** K6: the same for a key ending in U+1D1C0 (finding C20-K6-ESC) *)
+Theorem C20_keys_escape_refuted : key_refuted k6_key.
+Proof. exact keys_escape_refuted. Qed.
+Print Assumptions C20_keys_escape_refuted.
